@@ -1,5 +1,1325 @@
 package main
 
-// per-property streams and oracles are registered here
-func propStream(name string, r *Rand, n int, o *Out) bool { return false }
-func extraCommand(cmd string, args []string) bool       { return false }
+// Per-property streams: the cases of the property-scoped correspondence (T2) together with the direct
+// oracle of the property evaluated on the Go objects while the cases are executed.
+
+import (
+	"fmt"
+	"sort"
+	"strings"
+
+	"github.com/nlnwa/whatwg-url/canonicalizer"
+	"github.com/nlnwa/whatwg-url/errors"
+	"github.com/nlnwa/whatwg-url/url"
+)
+
+func extraCommand(cmd string, args []string) bool {
+	switch cmd {
+	case "cfgtok":
+		fmt.Println(defaultCfg.Tok)
+		return true
+	case "cost":
+		return costCommand(args)
+	case "race":
+		return raceCommand(args)
+	case "facts":
+		return factsCommand(args)
+	}
+	return false
+}
+
+func defaultHist(check ...string) HistOpts {
+	m := map[string]bool{}
+	for _, c := range check {
+		m[c] = true
+	}
+	return HistOpts{Cfg: onlyDefault, Setters: true, Resolve: true, Clone: false, MinOps: 0, MaxOps: 6, Check: m}
+}
+
+func propStream(name string, r *Rand, n int, o *Out) bool {
+	defer orc.Write(o.dir)
+	switch name {
+	case "C01":
+		streamC01(r, n, o)
+	case "C02":
+		streamC02(r, n, o)
+	case "C03":
+		streamCorpusChecked(o, "C03")
+		for i := 0; i < n; i++ {
+			o.EmitHist("h", randomHistory(r.Fork(), defaultHist("C03")))
+		}
+	case "C04":
+		streamCorpusChecked(o, "C04")
+		for i := 0; i < n; i++ {
+			o.EmitHist("h", randomHistory(r.Fork(), defaultHist("C04")))
+		}
+	case "C05":
+		streamC05(r, n, o)
+	case "C06":
+		streamC06(r, n, o)
+	case "C07":
+		streamC07(r, n, o)
+	case "C08":
+		streamC08(r, n, o)
+	case "C09":
+		streamC09(r, n, o)
+	case "C10":
+		streamC10(r, n, o)
+	case "C11":
+		streamC11(r, n, o)
+	case "C12":
+		streamC12(r, n, o)
+	case "C13":
+		streamC13(r, n, o)
+	case "C15":
+		streamC15(r, n, o)
+	case "C16":
+		streamC16(r, n, o)
+	case "C17":
+		streamC17(r, n, o)
+	case "C18":
+		streamC18(r, n, o)
+	case "C19":
+		streamCorpusChecked(o, "C19")
+		for i := 0; i < n; i++ {
+			ho := defaultHist("C19")
+			ho.Clone = true
+			o.EmitHist("h", randomHistory(r.Fork(), ho))
+		}
+	default:
+		return false
+	}
+	return true
+}
+
+func streamCorpusChecked(o *Out, prop string) {
+	for _, c := range loadWPT() {
+		h := &Hist{Check: map[string]bool{prop: true}}
+		if c.Base != nil {
+			h.ParseRefPkg(*c.Base, c.Input)
+		} else {
+			h.ParsePkg(c.Input)
+		}
+		o.EmitHist("w", h)
+	}
+	for name, l := range loadSetterWPT() {
+		k := setterIndex(name)
+		if k < 0 {
+			continue
+		}
+		for _, c := range l {
+			h := &Hist{Check: map[string]bool{prop: true}}
+			if u := h.ParsePkg(c.Href); u >= 0 {
+				h.Set(u, k, c.NewValue)
+			}
+			o.EmitHist("s", h)
+		}
+	}
+}
+
+func setterIndex(name string) int {
+	for i, s := range setterNames {
+		if s == name {
+			return i
+		}
+	}
+	return -1
+}
+
+// ---- C01 ---------------------------------------------------------------------------------------------
+
+func streamC01(r *Rand, n int, o *Out) {
+	streamCorpus(o)
+	// every reference shape against every base kind, through (*Url).Parse
+	for _, b := range basePool {
+		h := &Hist{}
+		if k := h.ParsePkg(b); k >= 0 {
+			for _, ref := range relPool {
+				h.Resolve(k, ref)
+			}
+		}
+		o.EmitHist("x", h)
+	}
+	for i := 0; i < n; i++ {
+		rr := r.Fork()
+		h := &Hist{}
+		switch i % 5 {
+		case 0:
+			h.ParsePkg(genInput(rr))
+		case 1:
+			h.ParseRefPkg(genBase(rr), genRef(rr, ""))
+		case 2:
+			h.ParseRef(defaultCfg, genBase(rr), genRef(rr, ""))
+		case 3:
+			if k := h.Parse(defaultCfg, genBase(rr)); k >= 0 {
+				h.Resolve(k, genRef(rr, h.urls[k].Scheme()))
+				if rr.P(30) {
+					h.Resolve(k, genRef(rr, h.urls[k].Scheme()))
+				}
+			}
+		default:
+			h.ParseRefPkg(genInput(rr), genInput(rr))
+		}
+		o.EmitHist("p", h)
+	}
+}
+
+// ---- C02 ---------------------------------------------------------------------------------------------
+
+func streamC02(r *Rand, n int, o *Out) {
+	check := func(h *Hist) {
+		orc.Eval("C02")
+		if h.panics > 0 {
+			orc.Fail("C02", "panic", "panic: "+lastPanic, strings.Join(h.ops, " ; "))
+		}
+	}
+	for i := 0; i < n; i++ {
+		rr := r.Fork()
+		var h *Hist
+		switch i % 6 {
+		case 0:
+			h = randomHistory(rr, allOps(randomCfg))
+		case 1:
+			h = &Hist{}
+			p := randomProf(rr)
+			in := genInput(rr)
+			if rr.P(30) {
+				in = genGarbage(rr)
+			}
+			k := h.CanonParse(p, in)
+			if k >= 0 {
+				h.CanonParse(p, h.urls[k].Href(false))
+				h.Set(k, rr.N(9), genGarbage(rr))
+			}
+			h.CanonParseRef(p, genBase(rr), genRef(rr, ""))
+		case 2:
+			h = &Hist{}
+			c := randomCfg(rr)
+			h.ParseRef(c, genInput(rr), genInput(rr))
+			h.ParseRef(c, genGarbage(rr), genGarbage(rr))
+			h.Parse(c, genGarbage(rr))
+		case 3:
+			// the option most likely to matter next to invalid bytes
+			h = &Hist{}
+			c := cfgFromMask(rr, (1<<4)|uint32(rr.N(1<<uint(len(optSpecs)))))
+			in := "http://" + r.Pick(weirdHosts) + genGarbage(rr) + "/"
+			h.Parse(c, in)
+			h.ParseRef(c, r.Pick(basePool), genRef(rr, ""))
+		case 4:
+			h = randomHistory(rr, allOps(func(r *Rand) *Cfg { return cfgFromMask(r, uint32(r.N(1<<uint(len(optSpecs))))) }))
+		default:
+			h = randomHistory(rr, allOps(onlyDefault))
+		}
+		check(h)
+		o.EmitHist("t", h)
+	}
+}
+
+// all subsets of the option constructors on a fixed input pool (thorough tier of C02)
+func streamC02Subsets(r *Rand, o *Out, stride int) {
+	pool := []string{"http://a\xff\xfeb/", "file://h", "http://u:p@[::1]:80/a/../b//c?q#f", "sc://%/x?'#`", "http://ex%41mple.com./C|/", "  ht\ttp://1.0x2.03/%%", "//x", "file:///C|/a", "x:opaque path ?q"}
+	for mask := 0; mask < 1<<uint(len(optSpecs)); mask += stride {
+		c := cfgFromMask(r, uint32(mask))
+		h := &Hist{}
+		for _, in := range pool {
+			if k := h.Parse(c, in); k >= 0 {
+				h.Resolve(k, "/x")
+				h.Set(k, 3, "h\xff\xfe:1")
+			}
+		}
+		orc.Eval("C02")
+		if h.panics > 0 {
+			orc.Fail("C02", "panic", "panic: "+lastPanic, strings.Join(h.ops, " ; "))
+		}
+		o.EmitHist("o", h)
+	}
+}
+
+// ---- C05 ---------------------------------------------------------------------------------------------
+
+func streamC05(r *Rand, n int, o *Out) {
+	streamCorpus(o)
+	starts := []string{"http://h/", "https://u:p@h:8/a/b?q#f", "file:///C:/x", "file://h/x", "sc://h/p", "sc:/p", "sc:opaque", "sc://", "ftp://h:21/", "ws://h", "sc:opaque ?q#f", "sc:/.//p", "http://[::1]/", "http://1.2.3.4:80/"}
+	// every ordered pair of setters on a pool of start URLs, with boundary values
+	vals := [][]string{{"file", "http:", "sc", "wss", "1x", ""}, {"u", "", "é:@"}, {"p", "", "/:"}, {"h2:99", "", "[::1]", "h3/x", "1.2.3", "a b", "h:99999"},
+		{"h2", "", "x:8", "0x7f.1", "xn--a"}, {"80", "", "8080x", "65536", "443", "0", "a"}, {"/x/../y", "", "a b", "//x", "C|/"}, {"q=1", "", "?a b'", "#"}, {"f", "", "#g h", "`"}}
+	cnt := 0
+	for _, st := range starts {
+		for s1 := 0; s1 < 9; s1++ {
+			for s2 := 0; s2 < 9; s2++ {
+				cnt++
+				if cnt%3 != int(r.s%3) && n < 50000 {
+					continue // quick tier: a third of the pairs per run (rotates with the seed)
+				}
+				h := &Hist{}
+				if k := h.ParsePkg(st); k >= 0 {
+					h.Set(k, s1, vals[s1][(cnt/7)%len(vals[s1])])
+					h.Set(k, s2, vals[s2][(cnt/3)%len(vals[s2])])
+				}
+				o.EmitHist("q", h)
+			}
+		}
+	}
+	for i := 0; i < n; i++ {
+		rr := r.Fork()
+		ho := defaultHist()
+		ho.Resolve = false
+		ho.MinOps, ho.MaxOps = 1, 6
+		o.EmitHist("h", randomHistory(rr, ho))
+	}
+}
+
+// ---- C06 ---------------------------------------------------------------------------------------------
+
+func stripForScheme(s string) string {
+	// leading/trailing C0 or space, then tab/newline removal
+	i, j := 0, len(s)
+	for i < j && s[i] <= 0x20 {
+		i++
+	}
+	for j > i && s[j-1] <= 0x20 {
+		j--
+	}
+	s = s[i:j]
+	s = strings.NewReplacer("\t", "", "\n", "", "\r", "").Replace(s)
+	return s
+}
+
+func hasScheme(ref string) bool {
+	s := stripForScheme(ref)
+	if len(s) == 0 || !((s[0] >= 'a' && s[0] <= 'z') || (s[0] >= 'A' && s[0] <= 'Z')) {
+		return false
+	}
+	for i := 1; i < len(s); i++ {
+		c := s[i]
+		if c == ':' {
+			return true
+		}
+		if !((c >= 'a' && c <= 'z') || (c >= 'A' && c <= 'Z') || (c >= '0' && c <= '9') || c == '+' || c == '-' || c == '.') {
+			return false
+		}
+	}
+	return false
+}
+
+func sameResult(u1 *url.Url, e1 error, u2 *url.Url, e2 error) bool {
+	if (e1 != nil) != (e2 != nil) {
+		return false
+	}
+	if e1 != nil {
+		return true
+	}
+	return getters(u1) == getters(u2)
+}
+
+func checkC06(baseStr, ref string) {
+	tok := "PR " + defaultCfg.Tok + " " + xs(baseStr) + " " + xs(ref)
+	b, err := url.Parse(baseStr)
+	if err != nil {
+		return
+	}
+	orc.Eval("C06")
+	u1, e1 := url.ParseRef(baseStr, ref)
+	u2, e2 := defaultCfg.Parser.ParseRef(baseStr, ref)
+	u3, e3 := b.Parse(ref)
+	if !sameResult(u1, e1, u2, e2) || !sameResult(u1, e1, u3, e3) {
+		orc.Fail("C06", "entry-points-disagree", "ParseRef / Parser.ParseRef / (*Url).Parse differ", tok)
+	}
+	d := url.VerifDump(b)
+	s := stripForScheme(ref)
+	switch {
+	case s == "":
+		if d.Opaque {
+			if e3 == nil {
+				orc.Fail("C06", "opaque-base-accepts", "empty reference accepted by a base with an opaque path", tok)
+			}
+		} else if e3 != nil || u3.Href(false) != b.Href(true) {
+			orc.Fail("C06", "empty-reference", "empty reference does not yield the base without fragment", tok)
+		}
+	case s[0] == '#':
+		if e3 != nil || u3.Href(true) != b.Href(true) {
+			orc.Fail("C06", "fragment-reference", "'#f' reference changed more than the fragment", tok)
+		}
+	case s[0] == '?' && !d.Opaque:
+		if e3 != nil {
+			orc.Fail("C06", "query-reference", "'?q' reference rejected", tok)
+		} else {
+			g, gb := getters(u3), getters(b)
+			if g.Protocol != gb.Protocol || g.Username != gb.Username || g.Password != gb.Password || g.Host != gb.Host || g.Pathname != gb.Pathname {
+				orc.Fail("C06", "query-reference", "'?q' reference changed scheme/credentials/host/port/path", tok)
+			}
+			if !strings.Contains(s, "#") && g.Hash != "" {
+				orc.Fail("C06", "query-reference", "'?q' reference kept the fragment", tok)
+			}
+		}
+	}
+	if !hasScheme(ref) {
+		if d.Opaque && !(len(s) > 0 && s[0] == '#') && e3 == nil {
+			orc.Fail("C06", "opaque-base-accepts", "relative reference accepted by a base with an opaque path", tok)
+		}
+		if e3 == nil && u3.Scheme() != b.Scheme() {
+			orc.Fail("C06", "scheme-not-inherited", "relative reference without scheme changed the scheme", tok)
+		}
+	}
+}
+
+// the serialization of u resolves to u itself against any base
+func checkC06Self(u *url.Url, b *url.Url, tok string) {
+	orc.Eval("C06.self")
+	v, err := b.Parse(u.Href(false))
+	if err == nil && getters(v) == getters(u) {
+		return
+	}
+	if stdNonRoundTrip(u) {
+		return
+	}
+	class := "self-resolution"
+	if hasAceLabel(u.Hostname()) {
+		class = "idn-host"
+	}
+	orc.Fail("C06", class, fmt.Sprintf("%s against %s", q(u.Href(false)), q(b.Href(false))), tok)
+}
+
+func streamC06(r *Rand, n int, o *Out) {
+	for _, b := range basePool {
+		h := &Hist{}
+		k := h.ParsePkg(b)
+		for _, ref := range relPool {
+			checkC06(b, ref)
+			if k >= 0 {
+				h.Resolve(k, ref)
+			}
+		}
+		o.EmitHist("x", h)
+	}
+	for i := 0; i < n; i++ {
+		rr := r.Fork()
+		base := genBase(rr)
+		ref := genRef(rr, "")
+		if rr.P(30) {
+			ref = rr.Pick([]string{"#", "?", "", " ", "#" + rr.Pick(fragPool), "?" + rr.Pick(queryPool), "?" + rr.Pick(queryPool) + "#" + rr.Pick(fragPool), "\t#x", " ?y "})
+		}
+		checkC06(base, ref)
+		h := &Hist{}
+		h.ParseRefPkg(base, ref)
+		h.ParseRef(defaultCfg, base, ref)
+		if k := h.ParsePkg(base); k >= 0 {
+			h.Resolve(k, ref)
+			if rr.P(40) {
+				if u, err := url.Parse(genInput(rr)); err == nil {
+					checkC06Self(u, h.urls[k], "P "+defaultCfg.Tok+" "+xs(base)+" ; R 0 "+xs(u.Href(false)))
+					h.Resolve(k, u.Href(false))
+				}
+			}
+		}
+		o.EmitHist("r", h)
+	}
+}
+
+// ---- C07 ---------------------------------------------------------------------------------------------
+
+func parseHostCases(o *Out, host string, schemes []string) {
+	for _, sc := range schemes {
+		h := &Hist{}
+		h.ParsePkg(sc + "://" + host + "/")
+		o.EmitHist("a", h)
+	}
+}
+
+func streamC07(r *Rand, n int, o *Out) {
+	alphabet := "019xXfg.+-87"
+	var rec func(prefix string, depth int)
+	maxLen := 3
+	if n >= 50000 {
+		maxLen = 4
+	}
+	rec = func(prefix string, depth int) {
+		if prefix != "" {
+			leafSimple(o, "LE", xs(prefix), recovered(func() string { return b01(url.VerifEndsInANumber(prefix)) }))
+			leafSimple(o, "L4", xs(prefix), recovered(func() string { return hostRes(url.VerifParseIPv4(prefix)) }))
+			if len(prefix) <= 3 || r.P(10) {
+				parseHostCases(o, prefix, []string{"http", "sc"})
+			}
+		}
+		if depth == maxLen {
+			return
+		}
+		for i := 0; i < len(alphabet); i++ {
+			rec(prefix+string(alphabet[i]), depth+1)
+		}
+	}
+	rec("", 0)
+	// boundaries in every radix and part count
+	for _, a := range ipv4Nums {
+		for np := 0; np < 4; np++ {
+			s := strings.Repeat("1.", np) + a
+			leafSimple(o, "L4", xs(s), recovered(func() string { return hostRes(url.VerifParseIPv4(s)) }))
+			leafSimple(o, "LE", xs(s), recovered(func() string { return b01(url.VerifEndsInANumber(s)) }))
+			parseHostCases(o, s, []string{"https", "sc"})
+			s2 := a + strings.Repeat(".1", np)
+			leafSimple(o, "L4", xs(s2), recovered(func() string { return hostRes(url.VerifParseIPv4(s2)) }))
+			parseHostCases(o, s2, []string{"ws"})
+		}
+	}
+	for i := 0; i < n; i++ {
+		rr := r.Fork()
+		s := genIPv4(rr)
+		if rr.P(20) {
+			s = pctSome(rr, s, 30)
+		}
+		leafSimple(o, "L4", xs(s), recovered(func() string { return hostRes(url.VerifParseIPv4(s)) }))
+		leafSimple(o, "LE", xs(s), recovered(func() string { return b01(url.VerifEndsInANumber(s)) }))
+		parseHostCases(o, s, []string{rr.Pick(specialSchemes), "sc", "file"})
+		n32 := uint32(rr.U64())
+		leafSimple(o, "L4S", fmt.Sprint(n32), xs(url.IPv4Addr(n32).String()))
+	}
+}
+
+// ---- C08 ---------------------------------------------------------------------------------------------
+
+// reference serializer, written independently: lowercase hex, first longest run of >= 2 zero pieces compressed
+func refIPv6String(a [8]uint16) string {
+	best, bestLen := -1, 0
+	for i := 0; i < 8; {
+		if a[i] != 0 {
+			i++
+			continue
+		}
+		j := i
+		for j < 8 && a[j] == 0 {
+			j++
+		}
+		if j-i >= 2 && j-i > bestLen {
+			best, bestLen = i, j-i
+		}
+		i = j
+	}
+	var sb strings.Builder
+	for i := 0; i < 8; i++ {
+		if i == best {
+			if i == 0 {
+				sb.WriteString("::")
+			} else {
+				sb.WriteString(":")
+			}
+			i += bestLen - 1
+			continue
+		}
+		sb.WriteString(fmt.Sprintf("%x", a[i]))
+		if i != 7 {
+			sb.WriteString(":")
+		}
+	}
+	return sb.String()
+}
+
+func checkC08Addr(o *Out, a url.IPv6Addr) {
+	orc.Eval("C08")
+	parts := make([]string, 8)
+	for k := 0; k < 8; k++ {
+		parts[k] = fmt.Sprint(a[k])
+	}
+	s := a.String()
+	leafSimple(o, "L6S", strings.Join(parts, ","), xs(s))
+	tok := "L6S " + strings.Join(parts, ",")
+	if ref := refIPv6String([8]uint16(a)); ref != s {
+		orc.Fail("C08", "serializer-not-canonical", fmt.Sprintf("String()=%s, canonical text is %s", q(s), q(ref)), tok)
+	}
+	u, err := url.Parse("http://[" + s + "]/")
+	if err != nil || u.Hostname() != "["+s+"]" {
+		orc.Fail("C08", "serialize-parse-not-identity", "parsing the serialization of "+q(s)+" is not the identity", tok)
+	}
+}
+
+func streamC08(r *Rand, n int, o *Out) {
+	// all 256 zero patterns x three fillings
+	for pat := 0; pat < 256; pat++ {
+		for fill := 0; fill < 3; fill++ {
+			var a url.IPv6Addr
+			for k := 0; k < 8; k++ {
+				if pat&(1<<uint(k)) != 0 {
+					switch fill {
+					case 0:
+						a[k] = 1
+					case 1:
+						a[k] = 0xffff
+					default:
+						a[k] = uint16(0x10<<uint(k)) | uint16(k+1)
+					}
+				}
+			}
+			checkC08Addr(o, a)
+		}
+	}
+	brackets := func(t string) []string {
+		return []string{"[" + t + "]", "[[" + t + "]]", "[" + t, t + "]", "[" + t + "]]", "[[" + t + "]", "[" + t + "]x", "[]" + t, "[" + t + "]:80"}
+	}
+	// '::' positions x piece counts x digit counts x ipv4 tails
+	for pieces := 0; pieces <= 9; pieces++ {
+		for pos := -1; pos <= pieces; pos++ {
+			for _, digits := range []string{"1", "0", "abcd", "00a", "12345", "g"} {
+				ps := make([]string, pieces)
+				for i := range ps {
+					ps[i] = digits
+				}
+				var t string
+				if pos < 0 {
+					t = strings.Join(ps, ":")
+				} else {
+					t = strings.Join(ps[:pos], ":") + "::" + strings.Join(ps[pos:], ":")
+				}
+				for _, tail := range []string{"", "1.2.3.4", "1.2.3", "255.255.255.256", "01.2.3.4"} {
+					tt := t
+					if tail != "" {
+						if tt == "" || strings.HasSuffix(tt, ":") {
+							tt += tail
+						} else {
+							tt += ":" + tail
+						}
+					}
+					leafSimple(o, "L6", xs(tt), recovered(func() string { return hostRes(url.VerifParseIPv6(tt)) }))
+					if digits == "1" || digits == "abcd" {
+						h := &Hist{}
+						h.ParsePkg("http://[" + tt + "]/")
+						h.ParsePkg("sc://[" + tt + "]/")
+						o.EmitHist("b", h)
+					}
+				}
+			}
+		}
+	}
+	for _, t := range []string{"::1", "1::", "::", "1:2:3:4:5:6:7:8", "::1.2.3.4", "1::2"} {
+		for _, b := range brackets(t) {
+			h := &Hist{}
+			h.ParsePkg("http://" + b + "/")
+			h.ParsePkg("sc://" + b + "/")
+			if k := h.ParsePkg("http://x/"); k >= 0 {
+				h.Set(k, 3, b)
+				h.Set(k, 4, b)
+			}
+			o.EmitHist("b", h)
+		}
+	}
+	for i := 0; i < n; i++ {
+		rr := r.Fork()
+		t := genIPv6Text(rr)
+		leafSimple(o, "L6", xs(t), recovered(func() string { return hostRes(url.VerifParseIPv6(t)) }))
+		h := &Hist{}
+		hs := genIPv6Host(rr)
+		h.ParsePkg(rr.Pick(specialSchemes) + "://" + hs + "/")
+		h.ParsePkg("sc://" + hs + "/")
+		o.EmitHist("b", h)
+		var a url.IPv6Addr
+		zero := rr.N(256)
+		for k := 0; k < 8; k++ {
+			if zero&(1<<uint(k)) == 0 {
+				a[k] = uint16(rr.N(0x10000) >> uint(4*rr.N(4)))
+			}
+		}
+		checkC08Addr(o, a)
+		// a parsed address re-parses to itself
+		if u, err := url.Parse("http://[" + t + "]/"); err == nil {
+			orc.Eval("C08")
+			v, err2 := url.Parse("http://" + u.Hostname() + "/")
+			if err2 != nil || v.Hostname() != u.Hostname() {
+				orc.Fail("C08", "parse-not-canonical", "host "+q(u.Hostname())+" does not re-parse to itself", "P "+defaultCfg.Tok+" "+xs("http://["+t+"]/"))
+			}
+		}
+	}
+}
+
+// ---- C09 ---------------------------------------------------------------------------------------------
+
+func flipCase(r *Rand, s string) string {
+	b := []byte(s)
+	for i, c := range b {
+		if r.P(50) {
+			if c >= 'a' && c <= 'z' {
+				b[i] = c - 0x20
+			} else if c >= 'A' && c <= 'Z' {
+				b[i] = c + 0x20
+			}
+		}
+	}
+	return string(b)
+}
+
+func asciiLowerStr(s string) string {
+	b := []byte(s)
+	for i, c := range b {
+		if c >= 'A' && c <= 'Z' {
+			b[i] = c + 0x20
+		}
+	}
+	return string(b)
+}
+
+func streamC09(r *Rand, n int, o *Out) {
+	for i := 0; i < n; i++ {
+		rr := r.Fork()
+		var d string
+		switch rr.N(6) {
+		case 0:
+			d = rr.Pick(weirdHosts)
+			if strings.ContainsAny(d, "%") {
+				d = genDomain(rr)
+			}
+		case 1:
+			d = genIPv4(rr)
+		default:
+			d = genDomain(rr)
+		}
+		if d == "" || strings.ContainsAny(d, "/?#\\@:[]\t\n\r") || !utf8Valid(d) || isDriveLetter(d, false) {
+			continue // not a host: delimiters, or the file drive letter quirk
+		}
+		res := map[string]string{}
+		var first string
+		variants := []string{d, flipCase(rr, d), pctSome(rr, d, 100), pctSome(rr, flipCase(rr, d), 40), pctSome(rr, d, 20)}
+		h := &Hist{}
+		for vi, v := range variants {
+			for _, scheme := range []string{"https", "file"} {
+				orc.Eval("C09")
+				in := scheme + "://" + v + "/"
+				u, err := url.Parse(in)
+				k := "ERR"
+				if err == nil {
+					k = "ok:" + u.Hostname()
+				}
+				if vi == 0 {
+					res[scheme] = k
+					first = in
+				} else if res[scheme] != k {
+					orc.Fail("C09", "spelling-dependent", fmt.Sprintf("%s gives %s but %s gives %s", q(first), q(res[scheme]), q(in), q(k)), "P "+defaultCfg.Tok+" "+xs(in))
+				}
+				if err == nil {
+					hn := u.Hostname()
+					if !strings.HasPrefix(hn, "[") {
+						if !isASCII(hn) || hn != asciiLowerStr(hn) {
+							orc.Fail("C09", "not-ascii-lowercase", "host "+q(hn), "P "+defaultCfg.Tok+" "+xs(in))
+						}
+						for _, c := range hn {
+							if forbiddenDomainCp(c) {
+								orc.Fail("C09", "forbidden-code-point", "host "+q(hn), "P "+defaultCfg.Tok+" "+xs(in))
+							}
+						}
+					}
+					if isASCII(d) && !hasAceLabel(d) && !isDottedDecimal(hn) && !(scheme == "file" && hn == "") && hn != asciiLowerStr(d) {
+						orc.Fail("C09", "ascii-host-changed", "host "+q(hn)+" for "+q(d), "P "+defaultCfg.Tok+" "+xs(in))
+					}
+					if scheme == "file" && asciiLowerStr(d) == "localhost" && hn != "" {
+						orc.Fail("C09", "file-localhost", "host "+q(hn), "P "+defaultCfg.Tok+" "+xs(in))
+					}
+				}
+				h.ParsePkg(in)
+			}
+		}
+		o.EmitHist("d", h)
+	}
+	for _, sp := range []string{"localhost", "LOCALHOST", "LocalHost", "%6cocalhost", "%4Cocalhost", "l%6Fcalhost", "%6c%6f%63%61%6c%68%6f%73%74"} {
+		h := &Hist{}
+		k := h.ParsePkg("file://" + sp + "/x")
+		orc.Eval("C09")
+		if k < 0 || h.urls[k].Hostname() != "" {
+			orc.Fail("C09", "file-localhost", "file://"+sp+"/x", "P "+defaultCfg.Tok+" "+xs("file://"+sp+"/x"))
+		}
+		o.EmitHist("d", h)
+	}
+}
+
+func utf8Valid(s string) bool {
+	for _, c := range s {
+		if c == 0xFFFD {
+			return false
+		}
+	}
+	return true
+}
+
+// ---- C10 ---------------------------------------------------------------------------------------------
+
+type namedSet struct {
+	name string
+	set  *url.PercentEncodeSet
+	std  func(rune) bool
+}
+
+func streamC10(r *Rand, n int, o *Out) {
+	sets := []namedSet{
+		{"c0", url.C0PercentEncodeSet, inC0},
+		{"fragment", url.FragmentPercentEncodeSet, inFragment},
+		{"query", url.QueryPercentEncodeSet, inQuery},
+		{"specialquery", url.SpecialQueryPercentEncodeSet, inSpecialQuery},
+		{"path", url.PathPercentEncodeSet, inPath},
+		{"userinfo", url.UserInfoPercentEncodeSet, inUserinfo},
+		{"c0sp", url.C0OrSpacePercentEncodeSet, func(c rune) bool { return inC0(c) || c == ' ' }},
+		{"host", url.HostPercentEncodeSet, func(c rune) bool { return inC0(c) || c == ' ' || c == '#' }},
+		{"laxpath", canonicalizer.LaxPathPercentEncodeSet, nil},
+		{"laxquery", canonicalizer.LaxQueryPercentEncodeSet, nil},
+		{"repeatedquery", canonicalizer.RepeatedQueryPercentDecodeSet, nil},
+	}
+	cps := []rune{}
+	for c := rune(0); c < 0x300; c++ {
+		cps = append(cps, c)
+	}
+	for _, c := range []rune{0x7ff, 0x800, 0xd7ff, 0xe000, 0xfffd, 0xffff, 0x10000, 0x10ffff} {
+		cps = append(cps, c)
+	}
+	for i := 0; i < 200; i++ {
+		cps = append(cps, rune(r.N(0x110000)))
+	}
+	fp := func() string {
+		var sb strings.Builder
+		for _, s := range sets {
+			for c := rune(0); c < 0x100; c++ {
+				sb.WriteString(b01(s.set.RuneShouldBeEncoded(c)))
+			}
+		}
+		return sb.String()
+	}
+	before := fp()
+	for _, s := range sets {
+		for _, c := range cps {
+			if c >= 0xd800 && c <= 0xdfff {
+				continue
+			}
+			orc.Eval("C10")
+			got := s.set.RuneShouldBeEncoded(c)
+			leafSimple(o, "LHAS", s.name+" "+fmt.Sprint(int(c)), b01(got))
+			if s.std != nil && got != s.std(c) {
+				orc.Fail("C10", "set-differs-from-standard", fmt.Sprintf("%s set: U+%04X member=%v, the standard says %v", s.name, c, got, s.std(c)), "LHAS "+s.name+" "+fmt.Sprint(int(c)))
+			}
+		}
+	}
+	for name, bs := range url.VerifBitsets() {
+		for c := uint(0); c < 0x100; c++ {
+			leafSimple(o, "LBIT", name+" "+fmt.Sprint(c), b01(bs.Test(c)))
+		}
+	}
+	for _, c := range cps {
+		if c >= 0xd800 && c <= 0xdfff {
+			continue
+		}
+		leafSimple(o, "LBIT", "urlcp "+fmt.Sprint(int(c)), b01(url.VerifIsURLCodePoint(c)))
+	}
+	// deriving a set never alters the source; string laws on random sets
+	hexFree := func(p *url.PercentEncodeSet) bool {
+		for _, c := range "0123456789abcdefABCDEF" {
+			if p.RuneShouldBeEncoded(c) {
+				return false
+			}
+		}
+		return true
+	}
+	p := defaultCfg.Parser
+	for i := 0; i < n; i++ {
+		rr := r.Fork()
+		base := sets[rr.N(6)].set
+		var derived *url.PercentEncodeSet
+		c := uint(0x20 + rr.N(0x5f))
+		if rr.P(50) {
+			derived = base.Set(c, uint(0x20+rr.N(0x5f)))
+		} else {
+			derived = base.Clear(c)
+		}
+		orc.Eval("C10")
+		if fp() != before {
+			orc.Fail("C10", "derive-alters-source", fmt.Sprintf("Set/Clear(%#x) changed a named set", c), "LHAS derive "+fmt.Sprint(c))
+			before = fp()
+		}
+		s := rr.Pick(segPool) + rr.Pick(queryPool) + rr.Pick(userPool) + rr.Pick(fragPool)
+		if rr.P(20) {
+			s = genGarbage(rr)
+		}
+		tok := "LENC " + defaultCfg.Tok + " " + setTok(derived) + " " + xs(s)
+		e1 := p.PercentEncodeString(s, derived)
+		leafSimple(o, "LENC", defaultCfg.Tok+" "+setTok(derived)+" "+xs(s), xs(e1))
+		leafSimple(o, "LDEC", defaultCfg.Tok+" "+xs(e1), xs(url.VerifDecodePercentEncoded(p, e1)))
+		pctIn := derived.RuneShouldBeEncoded('%')
+		if hexFree(derived) {
+			// nothing left unencoded
+			for _, ch := range e1 {
+				if derived.RuneShouldBeEncoded(ch) && !(ch == '%') {
+					orc.Fail("C10", "left-unencoded", fmt.Sprintf("%s still contains %s", q(e1), q(string(ch))), tok)
+					break
+				}
+			}
+			if !pctIn {
+				if e2 := p.PercentEncodeString(e1, derived); e2 != e1 {
+					orc.Fail("C10", "not-idempotent", fmt.Sprintf("%s -> %s -> %s", q(s), q(e1), q(e2)), tok)
+				}
+				if url.VerifDecodePercentEncoded(p, e1) != url.VerifDecodePercentEncoded(p, string([]rune(s))) {
+					orc.Fail("C10", "decode-differs", fmt.Sprintf("decode(encode(%s)) != decode(%s)", q(s), q(s)), tok)
+				}
+			} else if url.VerifDecodePercentEncoded(p, e1) != string([]rune(s)) {
+				orc.Fail("C10", "decode-not-inverse", fmt.Sprintf("decode(encode(%s)) = %s", q(s), q(url.VerifDecodePercentEncoded(p, e1))), tok)
+			}
+		}
+		// escapes are upper-case hex of the UTF-8 bytes, everything else untouched
+		var want strings.Builder
+		for _, ch := range s {
+			if derived.RuneShouldBeEncoded(ch) {
+				for _, b := range []byte(string(ch)) {
+					want.WriteString(fmt.Sprintf("%%%02X", b))
+				}
+			} else {
+				want.WriteRune(ch)
+			}
+		}
+		if want.String() != e1 {
+			orc.Fail("C10", "encode-shape", fmt.Sprintf("encode(%s) = %s, expected %s", q(s), q(e1), q(want.String())), tok)
+		}
+	}
+}
+
+// ---- C11 ---------------------------------------------------------------------------------------------
+
+type refList [][2]string
+
+func (l refList) get(n string) string {
+	for _, p := range l {
+		if p[0] == n {
+			return p[1]
+		}
+	}
+	return ""
+}
+
+func refParseUrlencoded(qs string) refList {
+	var res refList
+	for _, seq := range strings.Split(qs, "&") {
+		if seq == "" {
+			continue
+		}
+		name, value := seq, ""
+		if i := strings.IndexByte(seq, '='); i >= 0 {
+			name, value = seq[:i], seq[i+1:]
+		}
+		dec := func(s string) string {
+			s = strings.ReplaceAll(s, "+", " ")
+			var b []byte
+			for i := 0; i < len(s); i++ {
+				if s[i] == '%' && i+2 < len(s) && isHexByte(s[i+1]) && isHexByte(s[i+2]) {
+					b = append(b, unhexByte(s[i+1])<<4|unhexByte(s[i+2]))
+					i += 2
+				} else {
+					b = append(b, s[i])
+				}
+			}
+			return string(b)
+		}
+		res = append(res, [2]string{dec(name), dec(value)})
+	}
+	return res
+}
+
+func isHexByte(c byte) bool {
+	return (c >= '0' && c <= '9') || (c >= 'a' && c <= 'f') || (c >= 'A' && c <= 'F')
+}
+func unhexByte(c byte) byte {
+	switch {
+	case c >= '0' && c <= '9':
+		return c - '0'
+	case c >= 'a' && c <= 'f':
+		return c - 'a' + 10
+	default:
+		return c - 'A' + 10
+	}
+}
+
+func scalar(s string) string { return string([]rune(s)) }
+
+func pairsOf(sp *url.SearchParams) refList {
+	_, l := url.VerifSearchParamsDump(sp)
+	return refList(l)
+}
+
+func eqLists(a, b refList) bool {
+	if len(a) != len(b) {
+		return false
+	}
+	for i := range a {
+		if scalar(a[i][0]) != scalar(b[i][0]) || scalar(a[i][1]) != scalar(b[i][1]) {
+			return false
+		}
+	}
+	return true
+}
+
+func roundTripClass(l refList) string {
+	for _, p := range l {
+		if strings.ContainsAny(p[0], "&=+%#") || strings.ContainsAny(p[1], "&+%#") || !utf8Valid(p[0]) || !utf8Valid(p[1]) {
+			return "urlencoded-delimiter-or-escape-in-pair"
+		}
+		if strings.ContainsAny(p[0], "'\x00\t\n\r") || strings.ContainsAny(p[1], "'\x00\t\n\r") {
+			return "quote-or-control-in-pair"
+		}
+	}
+	return "other"
+}
+
+func streamC11(r *Rand, n int, o *Out) {
+	for i := 0; i < n; i++ {
+		rr := r.Fork()
+		h := &Hist{}
+		qs := rr.Pick(queryPool)
+		if rr.P(40) {
+			qs += "&" + rr.Pick(queryPool)
+		}
+		k := h.ParsePkg("http://h/?" + qs)
+		if k < 0 {
+			o.EmitHist("s", h)
+			continue
+		}
+		u := h.urls[k]
+		s := h.Grab(k)
+		sp := h.sps[s]
+		// parsing follows application/x-www-form-urlencoded
+		orc.Eval("C11")
+		ref := refParseUrlencoded(u.Query())
+		if !eqLists(pairsOf(sp), ref) {
+			orc.Fail("C11", "urlencoded-parse", fmt.Sprintf("query %s parsed as %q, expected %q", q(u.Query()), pairsOf(sp), ref), strings.Join(h.ops, " ; "))
+		}
+		nops := rr.N(7)
+		for j := 0; j < nops; j++ {
+			name, val := rr.Pick(spNames), rr.Pick(spValues)
+			if len(ref) > 0 && rr.P(50) {
+				name = ref[rr.N(len(ref))][0]
+			}
+			switch rr.N(8) {
+			case 0, 1:
+				h.QAppend(s, name, val)
+				ref = append(ref, [2]string{name, val})
+			case 2:
+				h.QDelete(s, name)
+				var nl refList
+				for _, p := range ref {
+					if p[0] != name {
+						nl = append(nl, p)
+					}
+				}
+				ref = nl
+			case 3, 4:
+				h.QSet(s, name, val)
+				var nl refList
+				done := false
+				for _, p := range ref {
+					if p[0] == name {
+						if !done {
+							nl = append(nl, [2]string{name, val})
+							done = true
+						}
+					} else {
+						nl = append(nl, p)
+					}
+				}
+				if !done {
+					nl = append(nl, [2]string{name, val})
+				}
+				ref = nl
+			case 5:
+				h.QSort(s)
+				nl := append(refList{}, ref...)
+				sort.SliceStable(nl, func(a, b int) bool { return nl[a][0] < nl[b][0] })
+				ref = nl
+			case 6:
+				h.QSortAbs(s)
+				nl := append(refList{}, ref...)
+				sort.SliceStable(nl, func(a, b int) bool { return nl[a][0]+nl[a][1] < nl[b][0]+nl[b][1] })
+				ref = nl
+			default:
+				g := h.QGet(s, name)
+				all := h.QGetAll(s, name)
+				has := h.QHas(s, name)
+				var vals []string
+				for _, p := range ref {
+					if p[0] == name {
+						vals = append(vals, hx(p[1]))
+					}
+				}
+				if g != xs(ref.get(name)) || all != "l"+strings.Join(vals, ",") || has != b01(len(vals) > 0) {
+					orc.Fail("C11", "list-semantics", "get/getAll/has of "+q(name), strings.Join(h.ops, " ; "))
+				}
+			}
+			orc.Eval("C11")
+			if !eqLists(pairsOf(sp), ref) {
+				orc.Fail("C11", "list-semantics", fmt.Sprintf("list is %q, expected %q", pairsOf(sp), ref), strings.Join(h.ops, " ; "))
+				ref = pairsOf(sp)
+			}
+		}
+		// serializing the list and parsing the result returns the same list
+		orc.Eval("C11.roundtrip")
+		h.QString(s)
+		if v, err := url.Parse(u.Href(false)); err == nil {
+			back := pairsOf(v.SearchParams())
+			if !eqLists(back, ref) {
+				orc.Fail("C11", roundTripClass(ref), fmt.Sprintf("list %q serializes to %s which parses to %q", ref, q(u.Query()), back), strings.Join(h.ops, " ; "))
+			}
+		}
+		o.EmitHist("s", h)
+		leafSimple(o, "LSPI", defaultCfg.Tok+" "+xs(qs), pairsTok(url.VerifSearchParamsInit(defaultCfg.Parser, qs)))
+	}
+}
+
+// ---- C12 ---------------------------------------------------------------------------------------------
+
+func checkSync(h *Hist, k int, what string) {
+	orc.Eval("C12")
+	u := h.urls[k]
+	d := url.VerifDump(u)
+	if !d.HasSearchParams {
+		return
+	}
+	sp := u.SearchParams()
+	ser := sp.String()
+	if u.Query() != ser || (ser != "" && u.Search() != "?"+ser) || (ser == "" && u.Search() != "") {
+		orc.Fail("C12", "query-differs-from-list", fmt.Sprintf("%s: Query=%s Search=%s list serializes to %s", what, q(u.Query()), q(u.Search()), q(ser)), strings.Join(h.ops, " ; "))
+	}
+	if ser != "" && !strings.Contains(u.Href(false), "?"+ser) {
+		orc.Fail("C12", "href-differs-from-list", fmt.Sprintf("%s: Href=%s list=%s", what, q(u.Href(false)), q(ser)), strings.Join(h.ops, " ; "))
+	}
+}
+
+func streamC12(r *Rand, n int, o *Out) {
+	for i := 0; i < n; i++ {
+		rr := r.Fork()
+		h := &Hist{}
+		start := rr.Pick([]string{"http://h/p", "http://h/p?a=1&b=2", "sc://h/p?x", "sc:opaque?q=1#f", "file:///x?a=b+c", "https://u@h:8/?a=1&a=2#f", "sc:/p?%41=%42"})
+		if rr.P(30) {
+			start = rr.Pick(basePool)
+		}
+		k := h.ParsePkg(start)
+		if k < 0 {
+			continue
+		}
+		u := h.urls[k]
+		s := -1
+		if rr.P(70) {
+			s = h.Grab(k) // a handle obtained before later setter calls
+		}
+		nops := 1 + rr.N(7)
+		for j := 0; j < nops; j++ {
+			switch rr.N(10) {
+			case 0, 1, 2, 3:
+				if s < 0 {
+					s = h.Grab(k)
+				}
+				switch rr.N(5) {
+				case 0:
+					h.QAppend(s, rr.Pick(spNames), rr.Pick(spValues))
+				case 1:
+					h.QDelete(s, rr.Pick(spNames))
+				case 2:
+					h.QSet(s, rr.Pick(spNames), rr.Pick(spValues))
+				case 3:
+					h.QSort(s)
+				default:
+					h.QSortAbs(s)
+				}
+				checkSync(h, k, "after a SearchParams mutation")
+				// the old handle is still the URL's list
+				if h.sps[s] != u.SearchParams() {
+					orc.Fail("C12", "stale-handle", "the SearchParams handle is no longer the URL's list", strings.Join(h.ops, " ; "))
+				}
+			case 4, 5, 6:
+				v := genSetterValue(rr, 7)
+				h.Set(k, 7, v)
+				orc.Eval("C12")
+				d := url.VerifDump(u)
+				if d.HasSearchParams {
+					want := refList(nil)
+					if d.Query != nil {
+						want = refList(url.VerifSearchParamsInit(defaultCfg.Parser, *d.Query))
+					}
+					if !eqLists(refList(d.SearchParams), want) {
+						orc.Fail("C12", "list-not-reinitialised", fmt.Sprintf("after SetSearch(%s): list %q, query %s", q(v), d.SearchParams, q(u.Query())), strings.Join(h.ops, " ; "))
+					}
+					if v == "" && (len(d.SearchParams) != 0 || d.Query != nil) {
+						orc.Fail("C12", "not-cleared", "after SetSearch(\"\")", strings.Join(h.ops, " ; "))
+					}
+				}
+				if s >= 0 && d.HasSearchParams && h.sps[s] != u.SearchParams() {
+					orc.Fail("C12", "stale-handle", "the SearchParams handle obtained before SetSearch is no longer the URL's list", strings.Join(h.ops, " ; "))
+				}
+			default:
+				st := []int{0, 1, 2, 3, 4, 5, 6, 8}[rr.N(8)]
+				before := u.Query()
+				var lb refList
+				if url.VerifDump(u).HasSearchParams {
+					lb = refList(url.VerifDump(u).SearchParams)
+				}
+				h.Set(k, st, genSetterValue(rr, st))
+				orc.Eval("C12")
+				d := url.VerifDump(u)
+				if u.Query() != before || (d.HasSearchParams && !eqLists(refList(d.SearchParams), lb)) {
+					orc.Fail("C12", "other-setter-touches-query", fmt.Sprintf("setter %s changed the query or the list", setterNames[st]), strings.Join(h.ops, " ; "))
+				}
+			}
+		}
+		o.EmitHist("y", h)
+	}
+}
+
+// ---- C13 ---------------------------------------------------------------------------------------------
+
+func snapshot(u *url.Url) string {
+	d := url.VerifDump(u)
+	return fmt.Sprintf("%v|%v|%q|%v|%v|%v", getters(u), u.Href(true), d.SearchParams, u.DecodedPort(), u.OpaquePath(), u.IsIPv4())
+}
+
+func streamC13(r *Rand, n int, o *Out) {
+	for i := 0; i < n; i++ {
+		rr := r.Fork()
+		h := &Hist{}
+		start := genBase(rr)
+		if rr.P(50) {
+			start = rr.Pick([]string{"http://h/a/b?x=1&y=2#f", "sc://u:p@h:1/p/q?a=b", "file:///C:/a/b?q", "sc:opaque?q=1#f", "https://h/?a=1", "http://h/a/b/c/d"})
+		}
+		a := h.ParsePkg(start)
+		if a < 0 {
+			continue
+		}
+		if rr.P(50) {
+			h.Grab(a)
+		}
+		var b int
+		kind := "clone"
+		if rr.P(50) {
+			b = h.Clone(a)
+		} else {
+			kind = "resolve"
+			before := snapshot(h.urls[a])
+			b = h.Resolve(a, genRef(rr, h.urls[a].Scheme()))
+			orc.Eval("C13")
+			if snapshot(h.urls[a]) != before {
+				orc.Fail("C13", "resolve-modifies-base", "resolving changed the base", strings.Join(h.ops, " ; "))
+			}
+		}
+		if b < 0 {
+			o.EmitHist("z", h)
+			continue
+		}
+		if kind == "clone" {
+			orc.Eval("C13")
+			if snapshot(h.urls[a]) != snapshot(h.urls[b]) {
+				orc.Fail("C13", "clone-differs", "the clone differs from the original", strings.Join(h.ops, " ; "))
+			}
+		}
+		nops := 1 + rr.N(6)
+		for j := 0; j < nops; j++ {
+			side, other := a, b
+			if rr.P(50) {
+				side, other = b, a
+			}
+			before := snapshot(h.urls[other])
+			switch rr.N(10) {
+			case 0, 1, 2, 3, 4:
+				st := rr.N(9)
+				h.Set(side, st, genSetterValue(rr, st))
+			case 5, 6, 7, 8:
+				s := h.Grab(side)
+				switch rr.N(5) {
+				case 0, 1:
+					h.QAppend(s, rr.Pick(spNames), rr.Pick(spValues))
+				case 2:
+					h.QDelete(s, rr.Pick(spNames))
+				case 3:
+					h.QSet(s, rr.Pick(spNames), rr.Pick(spValues))
+				default:
+					h.QSort(s)
+				}
+				// the operated-on value reflects the operation
+				orc.Eval("C13")
+				if h.urls[side].Query() != h.sps[s].String() {
+					orc.Fail("C13", "operation-not-reflected", "the list operation is not reflected in the value it was applied to", strings.Join(h.ops, " ; "))
+				}
+			default:
+				h.Resolve(side, genRef(rr, h.urls[side].Scheme()))
+			}
+			orc.Eval("C13")
+			if snapshot(h.urls[other]) != before {
+				orc.Fail("C13", "shared-state-"+kind, "an operation on one value changed the other", strings.Join(h.ops, " ; "))
+			}
+		}
+		o.EmitHist("z", h)
+	}
+}
+
+// ---- C15 ---------------------------------------------------------------------------------------------
+
+func streamC15(r *Rand, n int, o *Out) {
+	documented := map[errors.ErrorType]bool{}
+	for _, t := range errCatalogue {
+		documented[t] = true
+	}
+	for i := 0; i < n; i++ {
+		rr := r.Fork()
+		in := genInput(rr)
+		base := ""
+		if rr.P(35) {
+			base = genBase(rr)
+		}
+		if rr.P(15) {
+			in = "http://" + rr.Pick(weirdHosts) + "/"
+		}
+		h := &Hist{}
+		type res struct {
+			u   *url.Url
+			err error
+		}
+		var rs [4]res
+		for ci, c := range []*Cfg{defaultCfg, cfgReport, cfgFail, cfgReportFail} {
+			var k int
+			if base == "" {
+				k = h.Parse(c, in)
+				rs[ci].u, rs[ci].err = c.Parser.Parse(in)
+			} else {
+				k = h.ParseRef(c, base, in)
+				rs[ci].u, rs[ci].err = c.Parser.ParseRef(base, in)
+			}
+			_ = k
+		}
+		tok := strings.Join(h.ops, " ; ")
+		orc.Eval("C15")
+		d, rp, f, rf := rs[0], rs[1], rs[2], rs[3]
+		if !sameResult(d.u, d.err, rp.u, rp.err) {
+			orc.Fail("C15", "reporting-changes-result", "reporting changed the result", tok)
+		}
+		if !sameResult(f.u, f.err, rf.u, rf.err) {
+			orc.Fail("C15", "reporting-changes-result", "reporting changed the result of fail mode", tok)
+		}
+		if f.err == nil && (d.err != nil || getters(f.u) != getters(d.u)) {
+			orc.Fail("C15", "failmode-accepts-more-or-differs", "fail mode accepted what the default rejects, or a different URL", tok)
+		}
+		if base == "" {
+			recorded := rp.err == nil && len(rp.u.ValidationErrors()) == 0
+			if (f.err == nil) != recorded {
+				orc.Fail("C15", "failmode-not-exact", fmt.Sprintf("fail mode accepts=%v, reporting records nothing=%v", f.err == nil, recorded), tok)
+			}
+		}
+		for ci, x := range rs {
+			if x.err != nil {
+				t := errors.Type(x.err)
+				if t == "" || !documented[t] {
+					orc.Fail("C15", "untyped-error", "returned error has no documented type: "+x.err.Error(), tok)
+				}
+				if !errors.Failure(x.err) {
+					if ci >= 2 {
+						orc.Fail("C15", "failmode-returns-nonfatal-object", "the error returned under fail-on-validation-error is marked non-fatal", tok)
+					} else {
+						orc.Fail("C15", "returned-error-not-failure", "returned error is not marked as failure", tok)
+					}
+				}
+			} else if x.u != nil {
+				for _, e := range x.u.ValidationErrors() {
+					if errors.Failure(e) {
+						orc.Fail("C15", "recorded-entry-fatal", "an entry recorded on a successfully parsed URL is marked as failure: "+string(errors.Type(e)), tok)
+					}
+					if t := errors.Type(e); t == "" || !documented[t] {
+						orc.Fail("C15", "untyped-error", "recorded entry has no documented type", tok)
+					}
+				}
+			}
+		}
+		o.EmitHist("e", h)
+	}
+}
